@@ -7,8 +7,12 @@ import (
 
 // datacorettl: the executor of protocol `data` driven by a generator restricted to what the executable Lean models
 // of expiry under the value-header policy cover (lean/ZanVerif/Data/KVExec.lean, HashTTLExec.lean, driver
-// lean/Driver/DataTTL.lean): KV commands and hash commands (versioned layout) incl. EXPIRE / PERSIST / TTL per type,
-// policy=compact, one entry per apply event, well-formed commands, log time stepping across the expiry seconds.
+// lean/Driver/DataTTL.lean): KV commands and hash commands (versioned layout, incl. HINCRBY) incl. EXPIRE / PERSIST / TTL
+// per type, policy=compact, well-formed commands, log time stepping across the expiry seconds. KV writes are one entry per
+// apply event; about one hash write in ten is an apply event of 2-5 hash writes on one key (`w <ts> 0 …` … `w <ts> 1 …`).
+// HINCRBY scenarios: HSET f v / HINCRBY f d / HDEL f / HINCRBY f d (one event or four); HSET f v ; HEXPIRE k 1-3 ; the
+// log clock moved to / beyond the expiry second ; HINCRBY f d (must start from 0 in a new generation without TTL);
+// HSET ; HEXPIRE ; HPERSIST ; HINCRBY; and HINCRBY as the re-creating write of the equal-timestamp bursts.
 // Log timestamps are STRICTLY increasing — except in the sessions flagged `tsmode=equal` on the open line (about one in
 // twelve), where writes may reuse the previous log timestamp and create / kill / re-create bursts run at one
 // timestamp: there the real code shows the known equal-timestamp resurrection (generation = log timestamp) and the
@@ -21,8 +25,15 @@ var dcttlVals = []string{"1", "", "v", "w\x00", "007"}
 
 func dcHashWrite(rng *rand.Rand, c *dcClock, past bool, k string) string {
 	f := func() string { return dcttlFields[rng.Intn(len(dcttlFields))] }
-	v := func() string { return dcttlVals[rng.Intn(len(dcttlVals))] }
-	switch r := rng.Intn(100); {
+	v := func() string {
+		if rng.Intn(100) < 40 {
+			return dcIntVals[rng.Intn(len(dcIntVals))]
+		}
+		return dcttlVals[rng.Intn(len(dcttlVals))]
+	}
+	switch r := rng.Intn(115); {
+	case r >= 100:
+		return dcHex("hincrby", k, f(), dcDelta(rng))
 	case r < 25:
 		return dcHex("hset", k, f(), v())
 	case r < 32:
@@ -107,6 +118,19 @@ func genDataCoreTTL(rng *rand.Rand, tier string, emit func(string)) {
 		w := func(a string) {
 			emit(fmt.Sprintf("w %d 1%s", c.ts, a))
 		}
+		// an apply event of several hash writes: every entry but the last leaves the event open
+		event := func(as []string) {
+			for j, a := range as {
+				if j > 0 && !(equal && rng.Intn(3) == 0) {
+					c.ts += 1 + rng.Int63n(1000)
+				}
+				b := 0
+				if j == len(as)-1 {
+					b = 1
+				}
+				emit(fmt.Sprintf("w %d %d%s", c.ts, b, a))
+			}
+		}
 		for i := 0; i < n; i++ {
 			k := ks[rng.Intn(len(ks))]
 			if rng.Intn(100) < 55 {
@@ -122,9 +146,73 @@ func genDataCoreTTL(rng *rand.Rand, tier string, emit func(string)) {
 					} else {
 						w(dcHex("hexpire", k, "0"))
 					}
-					w(dcHex("hset", k, f2, "new"))
+					if rng.Intn(3) == 0 {
+						w(dcHex("hincrby", k, f2, dcDelta(rng)))
+					} else {
+						w(dcHex("hset", k, f2, "new"))
+					}
 					emit("inv")
 					emit("r" + dcHex("hgetall", k))
+					continue
+				}
+				if r := rng.Intn(100); r < 6 {
+					// HINCRBY across expiry / persist: the increment after the expiry second starts from 0 in a new generation
+					f1 := dcttlFields[rng.Intn(len(dcttlFields))]
+					w(dcHex("hset", k, f1, dcIntVals[rng.Intn(5)]))
+					if rng.Intn(3) == 0 {
+						c.step()
+						w(dcHex("hset", k, dcttlFields[rng.Intn(len(dcttlFields))], "other"))
+					}
+					c.step()
+					d := 1 + rng.Intn(3)
+					w(dcHex("hexpire", k, fmt.Sprint(d)))
+					exp := c.ts/1e9 + int64(d)
+					c.expiries = append(c.expiries, exp)
+					switch rng.Intn(4) {
+					case 0: // persisted before it runs out
+						c.step()
+						w(dcHex("hpersist", k))
+						c.ts = exp*1e9 + rng.Int63n(2e9)
+					case 1: // still alive: one nanosecond before the expiry second
+						if t := exp*1e9 - 1 - rng.Int63n(1000); t > c.ts {
+							c.ts = t
+						} else {
+							c.step()
+						}
+					default: // at / beyond the expiry second
+						if t := exp*1e9 + []int64{0, 1, 999999999, 1e9 + rng.Int63n(1e9)}[rng.Intn(4)]; t > c.ts {
+							c.ts = t
+						} else {
+							c.step()
+						}
+					}
+					w(dcHex("hincrby", k, f1, dcDelta(rng)))
+					emit("r" + dcHex("hgetall", k))
+					emit("r" + dcHex("httl", k))
+					emit("r" + dcHex("hlen", k))
+					emit("inv")
+					continue
+				} else if r < 14 {
+					as := dcIncrSeq(rng, k, dcttlFields[rng.Intn(len(dcttlFields))])
+					if rng.Intn(2) == 0 {
+						event(as)
+					} else {
+						for j, a := range as {
+							if j > 0 {
+								c.step()
+							}
+							w(a)
+						}
+					}
+					emit("r" + dcHex("hgetall", k))
+					continue
+				} else if r < 22 {
+					var as []string
+					for j := 2 + rng.Intn(4); j > 0; j-- {
+						as = append(as, dcHashWrite(rng, c, past, k))
+					}
+					event(as)
+					emit("inv")
 					continue
 				}
 				if rng.Intn(100) < 68 {
